@@ -404,6 +404,10 @@ func arithBin(op token.Token, x, y *Term, t types.Type) (*Term, *Term) {
 			}
 			return wrapTo(Mul(x, IntB(Pow2(k))), t), nil
 		}
+		if x.Op == "int" {
+			// constant << symbolic: a chain of constants
+			return mapChain(pow2Term(y, w), func(c *Term) *Term { return wrapTo(Mul(x, c), t) }), nil
+		}
 		return ranged(wrapTo(Mul(x, pow2Term(y, w)), t)), nil
 	case token.SHR:
 		if y.Op == "int" {
@@ -415,6 +419,13 @@ func arithBin(op token.Token, x, y *Term, t types.Type) (*Term, *Term) {
 		}
 		return ranged(Div(x, pow2Term(y, w))), nil
 	case token.AND:
+		// x & (1<<k) with symbolic k: the mask is an ite-chain of constants; distribute
+		if isConstChain(y, 0) && !isConstChain(x, 0) {
+			return ranged(mapChain(y, func(c *Term) *Term { r, _ := arithBin(op, x, c, t); return r })), nil
+		}
+		if isConstChain(x, 0) && x.Op == "ite" && !isConstChain(y, 0) {
+			return ranged(mapChain(x, func(c *Term) *Term { r, _ := arithBin(op, c, y, t); return r })), nil
+		}
 		if r, ok := bitTest(x, y); ok {
 			return ranged(r), nil
 		}
@@ -618,4 +629,25 @@ func orHighBit(x, y *Term) (*Term, bool) {
 		return nil, false
 	}
 	return Add(x, y), true
+}
+
+// isConstChain: an ite-chain (as produced by pow2Term) whose leaves are integer constants.
+func isConstChain(t *Term, depth int) bool {
+	if depth > 70 {
+		return false
+	}
+	if t.Op == "int" {
+		return depth > 0
+	}
+	if t.Op == "ite" {
+		return t.Args[1].Op == "int" && (t.Args[2].Op == "int" || isConstChain(t.Args[2], depth+1))
+	}
+	return false
+}
+
+func mapChain(t *Term, f func(*Term) *Term) *Term {
+	if t.Op == "ite" {
+		return Ite(t.Args[0], f(t.Args[1]), mapChain(t.Args[2], f))
+	}
+	return f(t)
 }
